@@ -272,6 +272,13 @@ Definition inflow (n v : nat) (x : V) : V :=
   then vsum (map (fun kc => if (snd kc =? v) && req (getn g v) then act A (w n (fst kc)) x else 0) (kids n))
   else 0.
 
+Lemma inflow_fn n v x : has_fn (getn g n) = true ->
+  inflow n v x = vsum (map (fun kc => if (snd kc =? v) && req (getn g v) then act A (w n (fst kc)) x else 0) (kids n)).
+Proof. intros H. unfold inflow. rewrite H. reflexivity. Qed.
+
+Lemma inflow_nofn n v x : has_fn (getn g n) = false -> inflow n v x = 0.
+Proof. intros H. unfold inflow. rewrite H. reflexivity. Qed.
+
 Lemma inflow_add n v x y : inflow n v (x ⊕ y) = inflow n v x ⊕ inflow n v y.
 Proof.
   unfold inflow. destruct (has_fn (getn g n)); [|symmetry; apply (vadd_0_l A Aok)].
@@ -347,4 +354,175 @@ Proof.
 Qed.
 
 End PathSum.
+
+(* ---------------------------------------------------------------- the sweep *)
+Lemma upd_same (b : bufs) n x : upd b n x n = x.
+Proof. unfold upd. rewrite Nat.eqb_refl. reflexivity. Qed.
+
+Lemma upd_other (b : bufs) n x m : m <> n -> upd b n x m = b m.
+Proof. intros H. unfold upd. apply Nat.eqb_neq in H. rewrite H. reflexivity. Qed.
+
+Section SweepPf.
+Variable g : arena.
+Variable w : weights A.
+Variable mode : bool.
+Variable root : nat.
+Hypothesis Hwf : wf g.
+Hypothesis Hfnreq : forall n, has_fn (getn g n) = true -> req (getn g n) = true.
+
+Notation kids n := (indexed (children (getn g n))).
+Notation inflow := (inflow g w).
+Notation hasfn := (fun n => has_fn (getn g n)).
+
+Lemma slot_update_some n go (b : bufs) kc :
+  slot_update A g w n go (Some b) kc =
+  if req (getn g (snd kc))
+  then match b (snd kc) with
+       | None => None
+       | Some x => Some (upd b (snd kc) (Some (x ⊕ act A (w n (fst kc)) go)))
+       end
+  else Some b.
+Proof. reflexivity. Qed.
+
+Lemma closure_fold n go : forall ks (b : bufs),
+  (forall kc, In kc ks -> req (getn g (snd kc)) = true -> b (snd kc) <> None) ->
+  exists b1, fold_left (slot_update A g w n go) ks (Some b) = Some b1 /\
+    forall v, b1 v = match b v with
+                     | Some x => Some (x ⊕ vsum (map (fun kc => if (snd kc =? v) && req (getn g v)
+                                                               then act A (w n (fst kc)) go else 0) ks))
+                     | None => None
+                     end.
+Proof.
+  induction ks as [|kc ks IH]; intros b Hpre.
+  - exists b. split; [reflexivity|]. intros v. destruct (b v); [|reflexivity]. simpl. rewrite vadd_0_r. reflexivity.
+  - cbn [fold_left]. rewrite slot_update_some.
+    destruct (req (getn g (snd kc))) eqn:Hr.
+    + destruct (b (snd kc)) as [x|] eqn:Hb.
+      2:{ exfalso. apply (Hpre kc); [left; reflexivity|exact Hr|exact Hb]. }
+      destruct (IH (upd b (snd kc) (Some (x ⊕ act A (w n (fst kc)) go)))) as [b1 [Hf Hb1]].
+      { intros kc' Hin Hr'. unfold upd. destruct (snd kc' =? snd kc); [discriminate|].
+        apply Hpre; [right; exact Hin|exact Hr']. }
+      exists b1. split; [exact Hf|]. intros v. rewrite Hb1. cbn [map Sweep.vsum fold_right].
+      destruct (Nat.eq_dec v (snd kc)) as [->|Hne].
+      * rewrite upd_same, Hb, Nat.eqb_refl, Hr. simpl. rewrite (vadd_assoc A Aok). reflexivity.
+      * rewrite upd_other by exact Hne. destruct (b v); [|reflexivity].
+        assert (E : (snd kc =? v) = false) by (apply Nat.eqb_neq; auto). rewrite E. simpl.
+        rewrite (vadd_0_l A Aok). reflexivity.
+    + destruct (IH b) as [b1 [Hf Hb1]].
+      { intros kc' Hin Hr'. apply Hpre; [right; exact Hin|exact Hr']. }
+      exists b1. split; [exact Hf|]. intros v. rewrite Hb1. destruct (b v); [|reflexivity].
+      cbn [map Sweep.vsum fold_right].
+      assert (E : (snd kc =? v) && req (getn g v) = false).
+      { destruct (snd kc =? v) eqn:E; [|reflexivity]. apply Nat.eqb_eq in E. rewrite <- E, Hr. reflexivity. }
+      rewrite E. rewrite (vadd_0_l A Aok). reflexivity.
+Qed.
+
+Lemma releases_nofn n : has_fn (getn g n) = false -> releases g mode root n = false.
+Proof.
+  intros H. unfold releases, is_leaf. rewrite H. simpl. rewrite orb_true_r. simpl.
+  rewrite andb_false_r. reflexivity.
+Qed.
+
+Variable L : list nat.           (* reversed(ordered_nodes) *)
+Hypothesis HLnd : NoDup L.
+Hypothesis HLkids : forall P n S, L = P ++ n :: S -> forall c, In c (children (getn g n)) -> In c S.
+Variable X : nat -> V.           (* the gradient a node holds when its closure runs *)
+Variable start : nat -> V.       (* buffer contents before the loop *)
+Hypothesis HX : forall v, In v L -> has_fn (getn g v) = true ->
+  X v = start v ⊕ vsum (map (fun n => inflow n v (X n)) L).
+
+Lemma inflow_suffix P n S : L = P ++ n :: S ->
+  vsum (map (fun m => inflow m n (X m)) L) = vsum (map (fun m => inflow m n (X m)) P).
+Proof.
+  intros HL. rewrite HL at 1. rewrite map_app, vsum_app.
+  rewrite (vsum_map_zero (fun m => inflow m n (X m)) (n :: S)); [apply vadd_0_r|].
+  intros m Hm. apply inflow_notchild. intros Hc.
+  assert (Hnd : NoDup (n :: S)) by (rewrite HL in HLnd; apply NoDup_app_r in HLnd; exact HLnd).
+  apply NoDup_cons_iff in Hnd. destruct Hnd as [HnS _].
+  destruct Hm as [->|Hm].
+  - apply HnS. eapply HLkids; eauto.
+  - apply in_split in Hm. destruct Hm as [S1 [S2 ->]].
+    assert (HL' : L = (P ++ n :: S1) ++ m :: S2) by (rewrite HL, <- app_assoc; reflexivity).
+    pose proof (HLkids _ _ _ HL' _ Hc) as Hin.
+    apply HnS. apply in_or_app. right. right. exact Hin.
+Qed.
+
+Lemma sweep_suffix : forall S P (b : bufs) log,
+  L = P ++ S ->
+  (forall v, In v S -> req (getn g v) = true ->
+     b v = Some (start v ⊕ vsum (map (fun m => inflow m v (X m)) P))) ->
+  exists b', fold_left (sweep_step A g w mode root) S (Some (b, log))
+             = Some (b', rev (filter hasfn S) ++ log) /\
+    (forall v, ~ In v S -> b' v = b v) /\
+    (forall v, In v S -> req (getn g v) = false -> b' v = b v) /\
+    (forall v, In v S -> req (getn g v) = true ->
+       b' v = if releases g mode root v then None
+              else Some (start v ⊕ vsum (map (fun m => inflow m v (X m)) L))).
+Proof.
+  induction S as [|n S' IH]; intros P b log HL Hpre.
+  - exists b. simpl. repeat split; auto; intros; tauto.
+  - assert (Hnd : NoDup (n :: S')) by (rewrite HL in HLnd; apply NoDup_app_r in HLnd; exact HLnd).
+    apply NoDup_cons_iff in Hnd. destruct Hnd as [HnS' _].
+    assert (HL2 : L = (P ++ [n]) ++ S') by (rewrite HL, <- app_assoc; reflexivity).
+    assert (Hkids : forall c, In c (children (getn g n)) -> In c S') by (intros c; apply (HLkids _ _ _ HL)).
+    assert (Hself : ~ In n (children (getn g n))) by (intros Hc; apply HnS'; auto).
+    destruct (has_fn (getn g n)) eqn:Hfn.
+    + (* the closure runs *)
+      pose proof (Hfnreq n Hfn) as Hreqn.
+      pose proof (Hpre n (or_introl eq_refl) Hreqn) as Hbn.
+      assert (Hgo : start n ⊕ vsum (map (fun m => inflow m n (X m)) P) = X n).
+      { rewrite (HX n); [|rewrite HL; apply in_or_app; right; left; reflexivity|exact Hfn].
+        rewrite (inflow_suffix P n S' HL). reflexivity. }
+      rewrite Hgo in Hbn.
+      destruct (closure_fold n (X n) (kids n) b) as [b1 [Hf Hb1]].
+      { intros kc Hin Hr. apply in_indexed_snd in Hin.
+        rewrite (Hpre (snd kc)); [discriminate|right; apply Hkids; exact Hin|exact Hr]. }
+      assert (Hb1_nonchild : forall v, ~ In v (children (getn g n)) -> b1 v = b v).
+      { intros v Hv. rewrite Hb1. destruct (b v); [|reflexivity].
+        rewrite vsum_map_zero; [rewrite vadd_0_r; reflexivity|].
+        intros kc Hin. apply in_indexed_snd in Hin.
+        destruct (snd kc =? v) eqn:E; [|reflexivity]. apply Nat.eqb_eq in E. subst. tauto. }
+      assert (Hb1_noreq : forall v, req (getn g v) = false -> b1 v = b v).
+      { intros v Hv. rewrite Hb1. destruct (b v); [|reflexivity].
+        rewrite vsum_map_zero; [rewrite vadd_0_r; reflexivity|].
+        intros kc _. rewrite Hv, andb_false_r. reflexivity. }
+      set (b1' := if releases g mode root n then upd b1 n None else b1).
+      assert (Hb1'_other : forall v, v <> n -> b1' v = b1 v).
+      { intros v Hv. unfold b1'. destruct (releases g mode root n); [apply upd_other; exact Hv|reflexivity]. }
+      destruct (IH (P ++ [n]) b1' (n :: log) HL2) as [b' [Hfold [Hout [Hnoreq Hreq]]]].
+      { intros v Hv Hr. assert (Hvn : v <> n) by (intros ->; tauto).
+        rewrite Hb1'_other by exact Hvn. rewrite Hb1. rewrite (Hpre v (or_intror Hv) Hr).
+        f_equal. rewrite map_app, vsum_app. cbn [map Sweep.vsum fold_right]. rewrite vadd_0_r.
+        rewrite <- (vadd_assoc A Aok). f_equal. f_equal. rewrite inflow_fn by exact Hfn. reflexivity. }
+      exists b'. split; [|split; [|split]].
+      * cbn [fold_left sweep_step]. rewrite Hfn. unfold closure. rewrite Hbn, Hf.
+        fold b1'. rewrite Hfold. cbn [filter]. rewrite Hfn. cbn [rev]. rewrite <- app_assoc. reflexivity.
+      * intros v Hv. assert (Hvn : v <> n) by (intros ->; apply Hv; left; reflexivity).
+        rewrite Hout by (intros Hin; apply Hv; right; exact Hin).
+        rewrite Hb1'_other by exact Hvn. apply Hb1_nonchild.
+        intros Hc. apply Hv. right. apply Hkids. exact Hc.
+      * intros v [->|Hv] Hr; [congruence|].
+        rewrite Hnoreq by assumption. assert (Hvn : v <> n) by (intros ->; tauto).
+        rewrite Hb1'_other by exact Hvn. apply Hb1_noreq. exact Hr.
+      * intros v [->|Hv] Hr; [|apply Hreq; assumption].
+        rewrite Hout by exact HnS'. unfold b1'.
+        destruct (releases g mode root v); [apply upd_same|].
+        rewrite Hb1_nonchild by exact Hself. rewrite Hbn, <- Hgo.
+        rewrite (inflow_suffix P v S' HL). reflexivity.
+    + (* a leaf: nothing runs, nothing is released *)
+      destruct (IH (P ++ [n]) b log HL2) as [b' [Hfold [Hout [Hnoreq Hreq]]]].
+      { intros v Hv Hr. rewrite (Hpre v (or_intror Hv) Hr). f_equal. f_equal.
+        rewrite map_app, vsum_app. cbn [map Sweep.vsum fold_right].
+        rewrite inflow_nofn by exact Hfn. rewrite !vadd_0_r. reflexivity. }
+      exists b'. split; [|split; [|split]].
+      * cbn [fold_left sweep_step]. rewrite Hfn. rewrite (releases_nofn n Hfn).
+        rewrite Hfold. cbn [filter]. rewrite Hfn. reflexivity.
+      * intros v Hv. apply Hout. intros Hin; apply Hv; right; exact Hin.
+      * intros v [->|Hv] Hr; [apply Hout; exact HnS'|apply Hnoreq; assumption].
+      * intros v [->|Hv] Hr; [|apply Hreq; assumption].
+        rewrite Hout by exact HnS'. rewrite (releases_nofn v Hfn).
+        rewrite (Hpre v (or_introl eq_refl) Hr). rewrite (inflow_suffix P v S' HL). reflexivity.
+Qed.
+
+End SweepPf.
 End Generic.
